@@ -225,6 +225,18 @@ static int file_all_apis(ctx_t *c, const sqfs_inode_generic_t *ino, int *agree)
 		hr = H(hr, buf, n);
 		off += n;
 	}
+	if (ret < 0) {
+		/* a refused read says nothing about its neighbours: positions behind the refused one are asked as well
+		   (bounds checks that hold for offset 0 can wrap for others); the answers are not part of any comparison */
+		static const sqfs_u64 step[] = { 1, 2, 3, 4, 500, 4095, 4096, 4097, 65536 };
+		size_t k;
+		for (k = 0; k < sizeof(step) / sizeof(step[0]); ++k) {
+			if (off + step[k] < size)
+				(void)sqfs_data_reader_read(c->data, ino, off + step[k], buf, (k % 2) ? 1 : 4097);
+		}
+		if (size > 0)
+			(void)sqfs_data_reader_read(c->data, ino, size - 1, buf, 1);
+	}
 	free(buf);
 	/* block by block + fragment */
 	nblk = sqfs_inode_get_file_block_count(ino);
